@@ -98,13 +98,31 @@ def oracle_rename(case):
         ref = run_sig(spec, sc, case['ops'])
     else:
         ref = run_sig(spec, to_statechart(spec), case['ops'])
-    ren = {n: n + 'x' for n in case['rename']}
+    # the renaming must be injective and keep the string order of ALL names (the documented
+    # semantics uses that order): n -> n + 'x' does so unless n is a prefix of another name
+    # ('s' < 's0' but 'sx' > 's0'); such names are left alone
+    all_names = [x['name'] for x in spec['states']]
+    ren = {}
+    skipped = 0
+    for n in case['rename']:
+        trial = dict(ren)
+        trial[n] = n + 'x'
+        img = [trial.get(a, a) for a in all_names]
+        ok = len(set(img)) == len(img) and all(
+            (a < b) == (trial.get(a, a) < trial.get(b, b)) for a in all_names for b in all_names)
+        if ok:
+            ren = trial
+        else:
+            skipped += 1
     viol, labels = [], {'rename cases': 1}
+    if skipped:
+        labels['renamings left out (would change the order of names)'] = skipped
     if case.get('prerun'):
         labels['rename after the statechart was executed'] = 1
     try:
         for n in case['rename']:
-            sc.rename_state(n, ren[n])
+            if n in ren:
+                sc.rename_state(n, ren[n])
     except Exception as e:
         return {'violations': [{'prop': PROP, 'kind': 'rename-raised', 'step': None,
                                 'detail': {'exc': type(e).__name__, 'msg': str(e)[:200]}}],
